@@ -351,6 +351,8 @@ class FileSink:
         if isinstance(rotation, datetime.time):
             return Rotation.RotationTime(Rotation.forward_day, rotation)
         if isinstance(rotation, datetime.timedelta):
+            if rotation <= datetime.timedelta(0):
+                raise ValueError("Rotation interval must be strictly positive, got: %s" % rotation)
             step_forward = partial(Rotation.forward_interval, interval=rotation)
             return Rotation.RotationTime(step_forward)
         if callable(rotation):
